@@ -206,6 +206,7 @@ class Ctx:
         self.cov["obligations"] += len(thms)
         self.cov["discharged"] += sum(1 for t in thms if t["ok"]) if rc == 0 and not banned_hits else 0
         self.cov["theorems"] += [t["name"] for t in thms]
+        self.cov["axioms_used"] = sorted(set(self.cov.get("axioms_used", [])) | {a for t in thms for a in t["axioms"]})
         self.cov["checker_cmd"] = cmd_desc
         if not thms:
             ok = False
